@@ -133,6 +133,10 @@ func Harness_C07_postHistory() {
 	second := c07Bodies[zzsym.Choice("second", len(c07Bodies))]
 	ex1 := &c07Exec{outcome: zzsym.Choice("outcome1", 4)}
 	c07Post(first.text, "one", ex1)
+	if zzsym.Param("hist", 2) >= 3 {
+		mid := c07Bodies[zzsym.Choice("mid", len(c07Bodies))]
+		c07Post(mid.text, "mid", &c07Exec{outcome: zzsym.Choice("outcomeMid", 4)})
+	}
 	ex2 := &c07Exec{}
 	c07Post(second.text, "two", ex2)
 	if !second.decodes {
